@@ -447,3 +447,52 @@ impl E {
         self.0
     }
 }
+
+/// Interface H: handlers that call back into the object server.
+pub struct H {
+    pub w: World,
+    pub n: u32,
+}
+
+#[interface(name = "org.sim.H")]
+impl H {
+    async fn add_child(&self, n: u32, #[zbus(object_server)] server: &zbus::ObjectServer) -> bool {
+        self.w.yield_now().await;
+        server.at(format!("/h/c{n}"), C(n)).await.unwrap_or(false)
+    }
+
+    async fn remove_child(&mut self, n: u32, #[zbus(object_server)] server: &zbus::ObjectServer) -> bool {
+        server.remove::<C, _>(format!("/h/c{n}")).await.is_ok()
+    }
+
+    async fn emit(&self, #[zbus(signal_emitter)] emitter: SignalEmitter<'_>) -> u32 {
+        let _ = Self::poked(&emitter, self.n).await;
+        self.n
+    }
+
+    /// A getter that registers an object.
+    #[zbus(property)]
+    async fn probe(&self, #[zbus(object_server)] server: &zbus::ObjectServer) -> u32 {
+        let _ = server.at("/h/probe", D(self.n)).await;
+        self.n
+    }
+
+    /// A setter that registers (or removes) an object.
+    #[zbus(property)]
+    async fn set_probe(&mut self, v: u32, #[zbus(object_server)] server: &zbus::ObjectServer) {
+        self.n = v;
+        if v % 2 == 0 {
+            let _ = server.at(format!("/h/set{v}"), E(v)).await;
+        } else {
+            let _ = server.remove::<D, _>("/h/probe").await;
+        }
+    }
+
+    #[zbus(property)]
+    fn plain(&self) -> u32 {
+        self.n
+    }
+
+    #[zbus(signal)]
+    pub async fn poked(emitter: &SignalEmitter<'_>, n: u32) -> zbus::Result<()>;
+}
